@@ -228,6 +228,16 @@ func c04Run(s *Shard) {
 			for _, v := range exp.value {
 				classes[v] = true
 			}
+			// a smaller request right after a larger one (same process): the first n-1 alternatives only
+			if n >= 2 {
+				for _, method := range utilMethods {
+					sub := ids[:n-1]
+					c := &Case{Prop: "C04", Kind: "request", Req: c04Request(method, ids, vals, ids, sub, false), Params: M{"ids": sub, "vals": vals[:n-1], "after_larger_request": true}}
+					s.Evals++
+					s.Begin(c)
+					s.Report(c04Check(c))
+				}
+			}
 			for mi, method := range utilMethods {
 				for pki, pk := range perms {
 					for pci, pc := range perms {
